@@ -84,6 +84,7 @@ func (x *Exec) specForm(name string, e *ast.CallExpr, st *State, sp *SpecCtx) (V
 			x.errorf("old() not available here")
 			return Value{Term: False}, true
 		}
+		x.lintOldLocals(e.Args[0], sp)
 		return x.eval(e.Args[0], sp.old, sp), true
 	case "pre":
 		if sp.pre == nil {
@@ -523,3 +524,32 @@ func (x *Exec) runGhost(ac *AtCall, e *ast.CallExpr, st *State, results []Value)
 }
 
 var _ = constant.MakeBool
+
+// lintOldLocals: old(e) evaluates e in the entry state. A local variable that is only declared inside the statements under
+// verification has no value there - the clause would talk about an unconstrained symbol (unprovable at best, vacuous at
+// worst). Reported as a contract error; write old(a)[i] to index the old array with a current value.
+func (x *Exec) lintOldLocals(e ast.Expr, sp *SpecCtx) {
+	if x.execHi <= x.execLo {
+		return
+	}
+	ast.Inspect(e, func(n ast.Node) bool {
+		id, ok := n.(*ast.Ident)
+		if !ok {
+			return true
+		}
+		if sp != nil {
+			if _, bound := sp.bound[id.Name]; bound {
+				return true
+			}
+		}
+		obj := x.lookupObj(id, sp)
+		v, ok := obj.(*types.Var)
+		if !ok || v.IsField() || v.Pkg() == nil || v.Parent() == v.Pkg().Scope() {
+			return true
+		}
+		if v.Pos() >= x.execLo && v.Pos() <= x.execHi {
+			x.errorf("old(...) mentions the local variable %s, which is declared inside the code under verification and has no value at entry (use old(a)[i] to index an old array with a current value)", id.Name)
+		}
+		return true
+	})
+}
